@@ -3,14 +3,18 @@
 
 Three observers of the same text:
     REAL   the front end of the repository (peg.peg.go + tree.Add*), in-process through pegx: the rule
-           tree reachable through the exported accessors before Compile
+           tree reachable through the exported accessors before Compile, and the error Compile returns
+           BEFORE DOING ANYTHING ELSE when the builder recorded errors while reading the text (pegx:
+           frontError; the output of Compile is discarded, any other Compile error is not the front end's)
     SPEC   frontgen.denote(ast): the tree the documentation promises for the abstract grammar the
-           text was rendered from (the spec never reads the text)
+           text was rendered from (the spec never reads the text); a text spelled with a hex escape
+           that has no code point must be REPORTED, with an error naming every such escape
     MODEL  `pegmodel front`: PEG semantics (evalF) of the grammar REGENERATED from peg.peg + Lean
            model of the builder
 
   well-formed texts : REAL == SPEC and REAL == MODEL
-  malformed texts   : REAL never panics; REAL and MODEL agree on accept/reject and on the tree
+  malformed texts   : REAL never panics; REAL and MODEL agree on accept/reject, on the tree and on the
+                      text of the builder's errors
   probes            : grey-zone texts with the outcome the documentation suggests; disagreements are
                       FINDINGS (listed, they do not fail the run unless --fail-on-findings)
 
@@ -108,7 +112,15 @@ def real_outcome(r):
         return ('panic', r['panic'].split('\n')[0])
     if r.get('syntaxError'):
         return ('syntaxError', None)
+    if r.get('frontError'):
+        return ('compileError', r['frontError'])
     return ('tree', r.get('tree') or [])
+
+
+def names_escapes(msg, digits):
+    """Does the error text name, one per line and in order, the hex escapes with these digit strings?"""
+    lines = msg.split('\n')
+    return len(lines) == len(digits) and all(('\\0x' + d) in l.split() for l, d in zip(lines, digits))
 
 
 def model_outcome(m):
@@ -123,6 +135,8 @@ def model_outcome(m):
         return ('panic', res['panic'])
     if 'unsupported' in res:
         return ('unsupported', res['unsupported'])
+    if 'compileError' in res:
+        return ('compileError', res['compileError'])
     return ('tree', res.get('tree') or [])
 
 
@@ -190,7 +204,7 @@ def main():
         assert all(r < 0x110000 and not (0xd800 <= r <= 0xdfff) for r in rs), k
     ids = list(texts)
     t_gen = time.time()
-    real = run_real(tools.pegx, [{'id': k, 'text': ''.join(map(chr, texts[k])), 'tree': True} for k in ids], L.NCPU)
+    real = run_real(tools.pegx, [{'id': k, 'text': ''.join(map(chr, texts[k])), 'tree': True, 'compile': True} for k in ids], L.NCPU)
     t_real = time.time()
     model = run_model(tools.pegmodel, [{'id': k, 'runes': texts[k]} for k in ids], L.NCPU)
     t_model = time.time()
@@ -198,8 +212,8 @@ def main():
     mismatches = []
     findings = []
     counts = {'well': len(well), 'malformed': len(mal), 'probes': len(probes), 'real_vs_spec_ok': 0, 'real_vs_model_ok': 0,
-              'model_unsupported': 0, 'spec_shape_only': 0, 'hex_without_codepoint_accepted': 0,
-              'malformed_rejected': 0, 'malformed_accepted': 0, 'panics': 0}
+              'model_unsupported': 0, 'spec_shape_only': 0, 'hex_without_codepoint_reported': 0,
+              'malformed_rejected': 0, 'malformed_reported_by_compile': 0, 'malformed_accepted': 0, 'panics': 0}
     unsupported_reasons = {}
 
     def show(text_runes):
@@ -213,7 +227,7 @@ def main():
             if mo[1] not in ('strings.ToLower on a non-ASCII rune', 'strings.ToUpper on a non-ASCII rune'):
                 mismatches.append({'id': cid, 'kind': 'model-unsupported', 'detail': mo[1], 'text': show(texts[cid])})
             return
-        if mo[0] != ro[0] or (mo[0] == 'tree' and mo[1] != ro[1]) or (mo[0] == 'panic' and mo[1] != ro[1]):
+        if mo[0] != ro[0] or (mo[0] in ('tree', 'panic', 'compileError') and mo[1] != ro[1]):
             d = first_diff(ro[1], mo[1]) if mo[0] == ro[0] == 'tree' else '%s vs %s' % (short(ro, 150), short(mo, 150))
             mismatches.append({'id': cid, 'kind': 'real-vs-model', 'detail': d, 'text': show(texts[cid])})
         else:
@@ -223,8 +237,16 @@ def main():
         ro = real_outcome(real[c['id']])
         if ro[0] in ('panic', 'crash'):
             counts['panics'] += 1
-        if ro[0] != 'tree':
-            mismatches.append({'id': c['id'], 'kind': 'real-vs-spec', 'detail': 'well-formed text not accepted: %s %s' % (ro[0], short(real[c['id']].get('syntaxError', ''), 200)),
+        if c['bad_escapes']:
+            # spelled with hex escapes that have no code point: must be reported, naming each of them
+            if ro[0] == 'compileError' and names_escapes(ro[1], c['bad_escapes']):
+                counts['real_vs_spec_ok'] += 1
+                counts['hex_without_codepoint_reported'] += 1
+            else:
+                mismatches.append({'id': c['id'], 'kind': 'real-vs-spec', 'detail': 'hex escape(s) without a code point (%s) not reported as such: %s' % (
+                    ' '.join('\\0x' + d for d in c['bad_escapes']), short(ro, 300)), 'text': show(texts[c['id']])})
+        elif ro[0] != 'tree':
+            mismatches.append({'id': c['id'], 'kind': 'real-vs-spec', 'detail': 'well-formed text not accepted: %s %s' % (ro[0], short(real[c['id']].get('syntaxError', '') or ro[1] or '', 200)),
                                'text': show(texts[c['id']])})
         elif ro[1] != c['expect']:
             if [FG.flatten(n) for n in ro[1]] == [FG.flatten(n) for n in c['expect']]:
@@ -235,8 +257,6 @@ def main():
             mismatches.append({'id': c['id'], 'kind': kind, 'detail': first_diff(ro[1], c['expect']), 'text': show(texts[c['id']])})
         else:
             counts['real_vs_spec_ok'] += 1
-            if c['hexinvalid']:
-                counts['hex_without_codepoint_accepted'] += 1
         cmp_model(c['id'], ro)
 
     accepted_hand = []
@@ -247,6 +267,8 @@ def main():
             mismatches.append({'id': c['id'], 'kind': 'real-' + ro[0], 'detail': ro[1], 'text': show(texts[c['id']])})
         elif ro[0] == 'syntaxError':
             counts['malformed_rejected'] += 1
+        elif ro[0] == 'compileError':
+            counts['malformed_reported_by_compile'] += 1
         else:
             counts['malformed_accepted'] += 1
             if not any(n['t'] == 'Rule' for n in ro[1]):
@@ -263,7 +285,7 @@ def main():
         if ro[0] in ('panic', 'crash'):
             counts['panics'] += 1
             mismatches.append({'id': cid, 'kind': 'real-' + ro[0], 'detail': ro[1], 'text': text})
-        got = 'error' if ro[0] == 'syntaxError' else (rule_bodies(ro[1]) if ro[0] == 'tree' else ro[0])
+        got = 'error' if ro[0] in ('syntaxError', 'compileError') else (rule_bodies(ro[1]) if ro[0] == 'tree' else ro[0])
         ok = None if expect is None else (got == expect)
         rec = {'id': pid, 'note': note, 'text': text, 'documented': 'error' if expect == 'error' else (None if expect is None else short(expect, 200)),
                'real': short(got, 260), 'agrees': ok}
